@@ -126,6 +126,53 @@ Proof. exact final_obs_once_l. Qed.
 Theorem oldest_first_is_fifo_queue : forall ops, s_run (0, []) ops = q_run [] ops.
 Proof. exact oldest_first_is_queue_l. Qed.
 
+(* ---- oracle soundness -------------------------------------------------------- *)
+
+(* The run-time oracle accepts every log the script-system model produces, for
+   every script table and every driver plan (provided the step budget was not
+   exhausted, which run_case reports as code 99): when the real executor's log
+   equals the model's log the oracle cannot raise a false alarm. *)
+Theorem oracle_sound : forall fuel scripts plan,
+  let r := model_run fuel scripts plan in
+  ~ In LFuel (fst r) -> oracle (fst r) (snd r) = None.
+Proof. exact oracle_sound_l. Qed.
+
+(* the same for the runs after which the driver drops the Executor (spawning
+   then fails, waking is silent, receivers of unfinished tasks answer "not
+   sent" or "sender dropped") ... *)
+Theorem oracle_dead_sound : forall fuel scripts plan tail,
+  match model_run_dead fuel scripts plan tail with
+  | (log, outs, obs) => ~ In LFuel log -> oracle_dead log tail outs obs = None
+  end.
+Proof. exact oracle_dead_sound_l. Qed.
+
+(* ... and for one Sender/Receiver pair driven directly, with both halves
+   dropped at any time: the model never delivers twice, before the send, or
+   another value, and panics only when polled again after Ready *)
+Theorem pair_oracle_sound : forall ops,
+  f_oracle None false (combine ops (f_run fstate0 ops)) = true.
+Proof. exact pair_oracle_sound_l. Qed.
+
+(* ---- a step budget that suffices ------------------------------------------------ *)
+
+(* If the script table has a cost certificate W (no script transitively spawns
+   itself), a budget computed from W and the plan is never exhausted: every
+   drain and every run_until_stalled of the model terminates within it. *)
+Theorem fuel_suffices : forall scripts W plan fuel,
+  cert scripts W -> fuel_bound W plan <= fuel ->
+  ~ In LFuel (fst (model_run fuel scripts plan)).
+Proof. exact fuel_suffices_l. Qed.
+
+(* the certificate is computed for tables whose scripts only spawn scripts
+   with a larger index (everything the generator produces) *)
+Theorem wtable_cert : forall scripts, spawns_up scripts -> cert scripts (wtable scripts).
+Proof. exact wtable_cert_l. Qed.
+
+(* no budget can be computed for arbitrary tables: a script that spawns itself
+   has no certificate (its run never stalls) *)
+Theorem self_spawn_has_no_cert : forall W, ~ cert [[ASpawn 0]] W.
+Proof. exact no_cert_self_spawn. Qed.
+
 (* ---- assumptions (each must be: Closed under the global context) ---- *)
 Print Assumptions queue_nodup.
 Print Assumptions woken_iff_queued.
@@ -143,3 +190,9 @@ Print Assumptions polled_relay_unfinished.
 Print Assumptions result_delivered_at_most_once.
 Print Assumptions driver_receives_once.
 Print Assumptions oldest_first_is_fifo_queue.
+Print Assumptions oracle_sound.
+Print Assumptions fuel_suffices.
+Print Assumptions wtable_cert.
+Print Assumptions self_spawn_has_no_cert.
+Print Assumptions oracle_dead_sound.
+Print Assumptions pair_oracle_sound.
